@@ -122,8 +122,12 @@ pub fn run(a: &Args) {
     let mut st = Stats::default();
     {
         let mut c = Cmp { out: &mut out, st: &mut st };
-        for case in load_cases(a, 0) {
-            let built = match construct_packet(&case["pkt"]) {
+        // the packets of the builder machine (random walks) and, systematically, one packet per (record type, value
+        // tuple) of the RDATA schemas' bounded domains (Gen_RData)
+        let mut pkts: Vec<Value> = load_cases(a, 0).into_iter().map(|c| c["pkt"].clone()).collect();
+        pkts.extend(load_cases(a, 2).into_iter().filter(|c| c["pkt"].as_array().map(|v| !v.is_empty()).unwrap_or(false)).map(|c| c["pkt"][0].clone()));
+        for pkt in pkts {
+            let built = match construct_packet(&pkt) {
                 Ok(p) => p,
                 Err(why) => {
                     eprintln!("construct failed: {why}");
